@@ -214,6 +214,7 @@ def rdl_jobs(tier):
                   ensures=[('only_invalid_argument', '__exc == 0 || __exc == EXC_invalid_argument'),
                            ('serves_exactly_the_difference_expressions', '(__exc != 0) == (%s == 3)' % FORM),
                            ('agrees_with_the_variable_level_distances', '__exc != 0 || spr_bounds_agree(self->_dists, *l, %s.first, %s.second)' % (R, R)),
+                           ('results_canonical', '__exc != 0 || (wf_inf(%s.first) && wf_inf(%s.second))' % (R, R)),
                            ('WITNESS_two_variable_form_with_negative_coefficient_is_reachable', '!(__exc == 0 && %s == 2 && spr_form_of(*l).c.num < 0)' % FORM)],
                   assigns='__exc')
     # distance(from, to) and equates(l0, l1) are thin wrappers of bounds now: proved with bounds REPLACED by the contract above (modular),
@@ -243,11 +244,9 @@ def rdl_jobs(tier):
                     callee_contracts={RB: c_rb}, replace=[RB], caps={'map': 4, 'vec_vec_inf_rational': 3, 'vec_inf_rational': 3, 'vec_lit': 2}, abstract_fields=ABS_R, harness=HE, roots=['smt_lin_ctor'],
                     timeout=3000, mem_gb=24, mem_est=6, bounded='l0: <= 2 terms over 3 time points, l1 = 0; bounds(lin) by its contract')]
     import os
-    if not os.environ.get('C12_RDL_WRAPPERS'):
-        # the two wrapper jobs are written but not registered: rdl.distance needed 42 minutes (relating the real subtraction 0 - from to the
-        # specification's negation is nonlinear rational reasoning for the SAT back end) and rdl.equates' specification of the comparison
-        # with zero was not finished; distance and equates of rdl_theory are one-line wrappers of bounds, textually the verified idl versions
-        wrappers = []
+    # rdl.distance is written but not registered: it needed 42 minutes (relating the real subtraction 0 - from to the specification's
+    # negation is nonlinear rational reasoning for the SAT back end); it is a one-line wrapper of bounds, textually the verified idl version
+    wrappers = [w for w in wrappers if w.name == 'rdl.equates' or os.environ.get('C12_RDL_WRAPPERS')]
     return wrappers + [Job('rdl.bounds', 'smt_rdl_theory_bounds__lin', tus=TUS_R, contract=cb, defines=d, unwind=6, model_unwind=12, spec_headers=['rdl_spec.h'], exceptions=True,
                 caps={'map': 4, 'vec_vec_inf_rational': 3, 'vec_inf_rational': 3, 'vec_lit': 2}, abstract_fields=ABS_R, harness=HB, timeout=3000, mem_gb=24, mem_est=6,
                 replay={'driver': 'rdl', 'stanza': '''  const int n = XT_NTP; sat_core sat; rdl_theory *th = build_rdl(sat, n); lin l = mk_lin(100);
